@@ -251,6 +251,7 @@ fn part_b(acc: &mut Acc, tier: Tier) -> usize {
     let vh = || HostMode::Single(sdk::SDK_DOMAIN.to_owned());
     let vhost = "bkt.s3.example.com";
     let foreign_host: &'static str = Box::leak(format!("files-{}", sdk::SDK_DOMAIN).into_boxed_str());
+    let long_bucket: &'static str = Box::leak(format!("/{}/k", "b".repeat(63)).into_boxed_str());
     let long_ascii: &'static str = Box::leak(format!("/bkt/{}", "k".repeat(1024)).into_boxed_str());
     let long_utf8: &'static str = Box::leak(format!("/bkt/{}", "%C3%A9".repeat(512)).into_boxed_str());
     let long_vh: &'static str = Box::leak(format!("/{}", "k".repeat(1024)).into_boxed_str());
@@ -273,6 +274,14 @@ fn part_b(acc: &mut Acc, tier: Tier) -> usize {
         // bucket (what the repository does with foreign hosts), so "/" addresses that bucket and "/k" an object in it
         (Kind::Bucket, "/", foreign_host, vh()),
         (Kind::Object, "/k", foreign_host, vh()),
+        // bucket names at the edges of the naming rules that are still VALID names: digits only (an account id, a year),
+        // digit labels that are not an IP address, 63 characters - path-style and as the label of a virtual host
+        (Kind::Bucket, "/123456789012", "s3.example.com", HostMode::None),
+        (Kind::Object, "/123456789012/k", "s3.example.com", HostMode::None),
+        (Kind::Object, "/2024.01/k", "s3.example.com", vh()),
+        (Kind::Object, "/k", "2024.s3.example.com", vh()),
+        (Kind::Bucket, "/", "1.2.3.4.5.s3.example.com", vh()),
+        (Kind::Object, long_bucket, "s3.example.com", HostMode::None),
         // keys of the maximum legal length (1024 bytes), ASCII and multi-byte, in both addressing styles
         (Kind::Object, long_ascii, "s3.example.com", HostMode::None),
         (Kind::Object, long_utf8, "s3.example.com", vh()),
@@ -418,7 +427,7 @@ pub fn run(ctx: &Ctx) -> (Acc, Report) {
     let max = ctx.tier.pick(2, 3);
     let rep = Report {
         level: "exploration",
-        rule: format!("(a) 96 operations: the request aws-sdk-s3 encodes for base() and for every single deviation of every query- or header-bound member and of the object key (blanks, + % & = / ? #, escape-shaped text incl. one whose second decoding is not UTF-8, non-ASCII, 1024 bytes) (thorough: also all pairs of 'member present'), under 5 combinations of addressing style x host parser {{path/none, path/single, path/multi(2), virtual-hosted/single, virtual-hosted/multi(2)}}: the recording backend logs exactly that operation. (a2) every query-bound string member of every operation x every flag / query member name of the model x 6 spellings of a value that embeds it after an escaped separator (a%26flag, a%26flag%3D1, a%3Fflag, a%23flag, a+%26flag, a%2526flag): same operation, one invocation. (b) full product of 8 methods x 19 addressed paths (root, bucket, object incl. a host that only ends with the text of the base domain, keys ending in or consisting of slashes and keys of the maximum legal length of 1024 bytes, /WriteGetObjectResponse; path-style and virtual-hosted-style under a host parser) x every subset of size <= {max} of {n_flags} query flags/members (every literal query item and query-bound member of the model, plus list-type=1 and select-type=1) x every subset of the 3 discriminating headers; the resolved route is observed at the access hook and compared with the reference router R1 (most-specific match over the Smithy http traits). Distinct by id."),
+        rule: format!("(a) 96 operations: the request aws-sdk-s3 encodes for base() and for every single deviation of every query- or header-bound member and of the object key (blanks, + % & = / ? #, escape-shaped text incl. one whose second decoding is not UTF-8, non-ASCII, 1024 bytes) (thorough: also all pairs of 'member present'), under 5 combinations of addressing style x host parser {{path/none, path/single, path/multi(2), virtual-hosted/single, virtual-hosted/multi(2)}}: the recording backend logs exactly that operation. (a2) every query-bound string member of every operation x every flag / query member name of the model x 6 spellings of a value that embeds it after an escaped separator (a%26flag, a%26flag%3D1, a%3Fflag, a%23flag, a+%26flag, a%2526flag): same operation, one invocation. (b) full product of 8 methods x 25 addressed paths (root, bucket, object incl. bucket names of digits only / of digit labels that are no IP address / of 63 characters, a host that only ends with the text of the base domain, keys ending in or consisting of slashes and keys of the maximum legal length of 1024 bytes, /WriteGetObjectResponse; path-style and virtual-hosted-style under a host parser) x every subset of size <= {max} of {n_flags} query flags/members (every literal query item and query-bound member of the model, plus list-type=1 and select-type=1) x every subset of the 3 discriminating headers; the resolved route is observed at the access hook and compared with the reference router R1 (most-specific match over the Smithy http traits). Distinct by id."),
         exhaustive: true,
         extra: json!({"query_flags": n_flags, "query_bound_string_members_given_routing_like_values": n_value_members}),
         assumptions: vec!["R1 is derived from data/s3.json only; requests for which its most-specific match is not unique are counted and skipped".into(), "CreateSession and ListDirectoryBuckets are deliberately absent from the S3 trait and outside the universe".into()],
